@@ -37,7 +37,8 @@ class Pat:
         it = self.it
         kind = spec[0]
         if kind == "any":
-            c = it.new_cell(NON_ROOT_KINDS, False, "child")
+            kinds = NON_ROOT_KINDS - frozenset(x + "Expression" for x in spec[2:])
+            c = it.new_cell(kinds, False, "child")
             self.names[spec[1]] = c.cid
         elif kind == "const":
             c = it.new_cell(frozenset(["ConstantExpression"]), False, "child")
@@ -82,6 +83,20 @@ class Pat:
 
     def const(self, name: str):
         return ("sym", f"c{self.names[name]}")
+
+
+class _PatView:
+    """Schema metavariables as terms of the *entry* state under one kind assignment (a sub-expression that the rule
+    looked into is a structured term, not an opaque atom)."""
+
+    def __init__(self, pat: "Pat", hv: HeapView):
+        self.pat, self.hv = pat, hv
+
+    def atom(self, name: str):
+        return self.hv.term(self.pat.names[name], "entry")
+
+    def const(self, name: str):
+        return self.hv.term(self.pat.names[name], "entry")
 
 
 def ac_canon(t):
@@ -157,10 +172,12 @@ def schemas() -> List[dict]:
                                                         p.const("c1"), p.const("c2")),
             src="constants_simplify.md 'Two Constants'")
     # distribute
-    add("a(b + c) -> ab + ac", "DistributiveMultiplyRule", ("Multiply", a, ("Add", b, c)),
+    # the factor is not itself a sum: for (p + q)(b + c) either operand may be read as the documented factor
+    a_ns = ("any", "a", "Add")
+    add("a(b + c) -> ab + ac", "DistributiveMultiplyRule", ("Multiply", a_ns, ("Add", b, c)),
         expect=lambda p: ("add", ("mul", p.atom("a"), p.atom("b")), ("mul", p.atom("a"), p.atom("c"))),
         src="DistributiveMultiplyRule docstring")
-    add("(b + c)a -> ab + ac", "DistributiveMultiplyRule", ("Multiply", ("Add", b, c), a),
+    add("(b + c)a -> ab + ac", "DistributiveMultiplyRule", ("Multiply", ("Add", b, c), a_ns),
         expect=lambda p: ("add", ("mul", p.atom("a"), p.atom("b")), ("mul", p.atom("a"), p.atom("c"))),
         src="distributive_multiply_across.md")
     # factor out
@@ -176,7 +193,8 @@ def schemas() -> List[dict]:
         opts={"constants": False}, applies=False, src="DistributiveFactorOutRule.__init__ comment")
     # multiplicative inverse
     add("a / b -> a * (1 / b)", "MultiplicativeInverseRule", ("Divide", a, Any("b")),
-        shape=r"^Multiply\(.*, Divide\(Constant, .*\)\)$", src="MultiplicativeInverseRule docstring")
+        shape=r"^Multiply\(.*, Divide\(Constant, .*\)\)$", src="MultiplicativeInverseRule docstring",
+        expect=lambda p: ("mul", p.atom("a"), ("div", A.lit(1), p.atom("b"))))
     # restate subtraction
     add("a - b -> a + -b (or an equivalent plus-negative form)", "RestateSubtractionRule", ("Subtract", a, b),
         shape=r"^Add\(", src="restate_subtraction.md")
@@ -190,9 +208,11 @@ def schemas() -> List[dict]:
         src="get_type: returns None for non-negative constants")
     # variable multiply
     add("x^a * x^b -> x^(a + b)", "VariableMultiplyRule", ("Multiply", ("Power", V("x"), C("a")), ("Power", V("x"), C("b"))),
-        shape=r"^Power\(Variable, Add\(Constant, Constant\)\)$", src="variable_multiply.md 'Explicit powers'")
+        shape=r"^Power\(Variable, Add\(Constant, Constant\)\)$", src="variable_multiply.md 'Explicit powers'",
+        expect=lambda p: ("pow", ("atom", "var:x"), ("add", p.const("a"), p.const("b"))))
     add("x * x^b -> x^(1 + b)", "VariableMultiplyRule", ("Multiply", V("x"), ("Power", V("x"), C("b"))),
-        shape=r"^Power\(Variable, Add\(Constant, Constant\)\)$", src="variable_multiply.md 'Implicit powers'")
+        shape=r"^Power\(Variable, Add\(Constant, Constant\)\)$", src="variable_multiply.md 'Implicit powers'",
+        expect=lambda p: ("pow", ("atom", "var:x"), ("add", A.lit(1), p.const("b"))))
     add("c x^a * d x^b -> (c * d) x^(a + b)", "VariableMultiplyRule", ("Multiply", T("c", "x", "a"), T("d", "x", "b")),
         expect=lambda p: ("mul", ("mul", p.const("c"), p.const("d")),
                           ("pow", ("atom", "var:x"), ("add", p.const("a"), p.const("b")))),
@@ -201,16 +221,21 @@ def schemas() -> List[dict]:
         applies=False, distinct=("x", "y"), src="variable_multiply.md 'x * y cannot be combined'")
     # balanced move
     add("t + c = r -> t = r - c", "BalancedMoveRule", ("Equal", ("Add", Any("t"), C("c")), Any("r")), target="c",
-        shape=r"^Equal\(.*, Subtract\(.*, Constant\)\)$", src="BalancedMoveRule docstring 'a + 2 = 3'")
+        shape=r"^Equal\(.*, Subtract\(.*, Constant\)\)$", src="BalancedMoveRule docstring 'a + 2 = 3'",
+        expect=lambda p: ("eq", p.atom("t"), ("sub", p.atom("r"), p.const("c"))))
     add("r = t + c -> r - c = t", "BalancedMoveRule", ("Equal", Any("r"), ("Add", Any("t"), C("c"))), target="c",
-        shape=r"^Equal\(Subtract\(.*, Constant\), .*\)$", src="balanced_move.test.json")
+        shape=r"^Equal\(Subtract\(.*, Constant\), .*\)$", src="balanced_move.test.json",
+        expect=lambda p: ("eq", ("sub", p.atom("r"), p.const("c")), p.atom("t")))
     add("s + (t + c) = r -> s + t = r - c", "BalancedMoveRule", ("Equal", ("Add", Any("s"), ("Add", Any("t"), C("c"))), Any("r")),
-        target="c", shape=r"^Equal\(Add\(.*\), Subtract\(.*, Constant\)\)$", src="balanced_move.test.json (addend of a side, any grouping)")
+        target="c", shape=r"^Equal\(Add\(.*\), Subtract\(.*, Constant\)\)$", src="balanced_move.test.json (addend of a side, any grouping)",
+        expect=lambda p: ("eq", ("add", p.atom("s"), p.atom("t")), ("sub", p.atom("r"), p.const("c"))))
     add("(t + c) + s = r -> t + s = r - c", "BalancedMoveRule", ("Equal", ("Add", ("Add", Any("t"), C("c")), Any("s")), Any("r")),
-        target="c", shape=r"^Equal\(Add\(.*\), Subtract\(.*, Constant\)\)$", src="balanced_move.test.json (addend of a side, any grouping)")
+        target="c", shape=r"^Equal\(Add\(.*\), Subtract\(.*, Constant\)\)$", src="balanced_move.test.json (addend of a side, any grouping)",
+        expect=lambda p: ("eq", ("add", p.atom("t"), p.atom("s")), ("sub", p.atom("r"), p.const("c"))))
     add("c t = r -> c t / c = r / c", "BalancedMoveRule", ("Equal", ("Multiply", C("c", "nonzero"), V("t")), Any("r")), target="c",
         shape=r"^Equal\(Divide\(Multiply\(Constant, Variable\), Constant\), Divide\(.*, Constant\)\)$",
-        src="BalancedMoveRule docstring '3a = 3'")
+        src="BalancedMoveRule docstring '3a = 3'",
+        expect=lambda p: ("eq", ("div", ("mul", p.const("c"), ("atom", "var:t")), p.const("c")), ("div", p.atom("r"), p.const("c"))))
     return S
 
 
@@ -273,8 +298,9 @@ def run_schema(chk: Check, prog: Program, S: Summaries, sc: dict) -> None:
             chk.fail("C08.R2", f"C08.R2:{rname}:{sc['name']}:no-result", label, f"no result node: {res!r}", where=where)
             continue
         # shape judgement
-        for choice, val in kind_assignments(it, S.optable, lambda hv: _shape_and_term(it, hv, res.cid, sc)):
-            shape, term = val
+        for choice, val in kind_assignments(it, S.optable, lambda hv: _shape_and_term(it, hv, res.cid, sc) + (
+                (sc["expect"](_PatView(it.pat, hv)),) if sc.get("expect") else (None,))):
+            shape, term, want = val
             probs = []
             if sc.get("shape") and not re.search(sc["shape"], shape):
                 probs.append(f"result shape {shape} does not match the documented form /{sc['shape']}/")
@@ -285,17 +311,32 @@ def run_schema(chk: Check, prog: Program, S: Summaries, sc: dict) -> None:
                     probs.append(f"operands change: {before} -> {after}")
                 elif before == after:
                     probs.append("the operands are in the same order as before: nothing was swapped")
-            if sc.get("expect"):
-                want = sc["expect"](it.pat)
-                if _strict(want) != _strict_from_term(term, want):
-                    if ac_canon(_plain(want)) != ac_canon(term):
-                        probs.append(f"result {A.term_str(term)} is not the documented {A.term_str(_plain(want))} "
-                                     f"(modulo order/grouping of + and *)")
-                    elif _has_strict(want):
-                        probs.append(f"result {A.term_str(term)} has the operands of the documented {A.term_str(_plain(want))} "
-                                     f"but not in the documented order/grouping")
+            if sc.get("expect") and "nan" not in A.term_str(term):
+                same = _same(it, _plain(want), term, bool(sc.get("shape")) and not _has_strict(want))
+                if not same:
+                    probs.append(f"result {A.term_str(term)} is not the documented {A.term_str(_plain(want))} "
+                                 f"(modulo order/grouping of + and *)")
+                elif _has_strict(want) and _plain(want) != term:
+                    probs.append(f"result {A.term_str(term)} has the operands of the documented {A.term_str(_plain(want))} "
+                                 f"but not in the documented order/grouping")
             chk.verdict(not probs, "C08.R2", f"C08.R2:{rname}:{sc['name']}", f"{label} -> {shape}", "; ".join(probs),
                         witness={"result": shape, "path": p.cond[-300:], "source": sc["src"]}, where=where)
+
+
+def _same(it: Interp, want, term, field_laws: bool) -> bool:
+    """Structural equality modulo order/grouping of + and *; with field_laws (the schema also pins the shape by a
+    pattern) a documented variant of the same shape is accepted when its operands are the documented ones up to the
+    field laws (a / -b -> a * (-1 / b))."""
+    if want[0] == "eq" and term[0] == "eq":
+        return _same(it, want[1], term[1], field_laws) and _same(it, want[2], term[2], field_laws)
+    if ac_canon(want) == ac_canon(term):
+        return True
+    if field_laws and want[0] != "eq" and term[0] != "eq":
+        try:
+            return A.equal_nf(want, term, subst=dict(it.eq_subst))
+        except Exception:
+            return False
+    return False
 
 
 def _shape_and_term(it: Interp, hv: HeapView, res: int, sc: dict):
